@@ -116,3 +116,8 @@ package trusted
 //@ trusted func google.golang.org/grpc/status.Errorf
 //@   ensures nonnil: r0 != nil
 //@   assigns nothing
+
+// math/bits.Len64: minimum number of bits to represent x (documentation); the clause is its exact definition.
+//@ trusted func math/bits.Len64
+//@   pure
+//@   ensures def: (x == 0 ==> r0 == 0) && (x != 0 ==> 1 <= r0 && r0 <= 64 && x>>uint(r0-1) == 1)
